@@ -4,6 +4,7 @@ package main
 // listed verbatim in evidence under trusted_base.
 
 import (
+	"go/token"
 	"regexp/syntax"
 	"fmt"
 	"go/types"
@@ -243,6 +244,13 @@ func (fr *Frame) intrinsic(ins ssa.Instruction, callee *ssa.Function, c *ssa.Cal
 		trustedUsed["unicode.Is*/To* are pure functions of the rune (uninterpreted)"] = true
 		return Val{C: []string{r}}, true
 	}
+	if strings.HasPrefix(full, "(*strings.Builder).") && len(args) >= 1 {
+		// the builder's length is the len of its buf field; contents are not modelled
+		if v, ok := fr.builderOp(callee.Name(), c, args, rt); ok {
+			trustedUsed["strings.Builder: WriteString/WriteByte/WriteRune/Write add the length written, String() has the accumulated length, Reset clears it (contents not modelled)"] = true
+			return v, true
+		}
+	}
 	if full == "sort.Search" && len(c.Args) == 2 {
 		if mc, ok := c.Args[1].(*ssa.MakeClosure); ok {
 			// r = sort.Search(n, f): 0 <= r <= n, f(r-1) is false when r > 0, f(r) is true when r < n
@@ -469,7 +477,34 @@ func (fr *Frame) placeLeaves(addr ssa.Value, elem types.Type) (fams []string, ad
 }
 
 func (fr *Frame) loadVia(addr ssa.Value, elem types.Type) Val {
+	if fr.q.rtLeaves != nil && !throughSliceElement(addr) {
+		if _, local := fr.resolveLocal(addr); !local {
+			fams, addrs, _ := fr.placeLeaves(addr, elem)
+			for i := range fams {
+				fr.readCheck(fams[i], addrs[i], addr.Pos(), "")
+			}
+		}
+	}
 	return fr.loadViaIn(fr.cur.st, addr, elem)
+}
+
+// readCheck: a leaf of the tracked receiver is read: it must have been assigned by this call (or be on the allow list)
+func (fr *Frame) readCheck(fam, addr string, pos token.Pos, by string) {
+	q := fr.q
+	lf, ok := q.rtLeaves[fam]
+	if !ok {
+		return
+	}
+	if _, allowed := q.opts.TrackReads[lf.Path]; allowed {
+		return
+	}
+	flag := q.get(fr.cur.st, "$w|"+lf.Path)
+	cond := fmt.Sprintf("(=> (= %s %s) %s)", addr, sAdd(q.rtBase, sInt(int64(lf.Off))), flag)
+	name := "read-before-assign(" + lf.Path + ")"
+	if by != "" {
+		name += " by " + by
+	}
+	q.addObligation(fr, "reads", name, pos, fr.cur.reach, cond)
 }
 
 func (fr *Frame) loadViaIn(st *State, addr ssa.Value, elem types.Type) Val {
@@ -510,6 +545,10 @@ func (fr *Frame) storeVia(addr ssa.Value, elem types.Type, v Val) {
 	for i := range fams {
 		famLeafSort[fams[i]] = sorts[i]
 		a := fr.q.get(st, fams[i])
+		if lf, ok := fr.q.rtLeaves[fams[i]]; ok {
+			k := "$w|" + lf.Path
+			st.v[k] = fmt.Sprintf("(or %s (= %s %s))", fr.q.get(st, k), addrs[i], sAdd(fr.q.rtBase, sInt(int64(lf.Off))))
+		}
 		if fams[i] == fr.q.peakFam && fr.q.peakFam != "" {
 			// the cursor moves: remember the furthest point it reached
 			hw := fr.q.get(st, "$hw")
@@ -785,4 +824,102 @@ func reMin(re *syntax.Regexp) int {
 		return m
 	}
 	return 0 // star, quest, empty, anchors, anything unknown
+}
+
+
+func (fr *Frame) builderOp(name string, c *ssa.CallCommon, args []Val, rt types.Type) (Val, bool) {
+	q := fr.q
+	st := fr.cur.st
+	pt, ok := underlying(c.Args[0].Type()).(*types.Pointer)
+	if !ok {
+		return Val{}, false
+	}
+	var lenLeaf *Leaf
+	l := layoutOf(pt.Elem())
+	for i := range l.leaves {
+		if l.leaves[i].Path == "buf#len" {
+			lenLeaf = &l.leaves[i]
+		}
+	}
+	if lenLeaf == nil {
+		return Val{}, false
+	}
+	famLeafSort[lenLeaf.Arr] = lenLeaf.Sort
+	var addr string
+	var cur string
+	var local *localRef
+	if r, ok := fr.resolveLocal(c.Args[0]); ok {
+		local = &r
+		keys, _ := fr.localLeafKeys(r, pt.Elem())
+		for i := range l.leaves {
+			if l.leaves[i].Path == "buf#len" && i < len(keys) {
+				addr = keys[i]
+				cur = q.get(st, keys[i])
+			}
+		}
+		if addr == "" {
+			return Val{}, false
+		}
+	} else {
+		addr = sAdd(args[0].C[0], sInt(int64(lenLeaf.Off)))
+		cur = fmt.Sprintf("(select %s %s)", q.get(st, lenLeaf.Arr), addr)
+	}
+	set := func(nv string) {
+		if local != nil {
+			st.v[addr] = nv
+			return
+		}
+		st.v[lenLeaf.Arr] = fmt.Sprintf("(store %s %s %s)", q.get(st, lenLeaf.Arr), addr, nv)
+	}
+	q.assume(fr.cur.reach, "(>= "+cur+" 0)")
+	switch name {
+	case "WriteString":
+		n := "(slen " + args[1].C[0] + ")"
+		set("(+ " + cur + " " + n + ")")
+		return Val{C: []string{n, "0", "0"}}, true
+	case "Write":
+		n := args[1].C[1]
+		set("(+ " + cur + " " + n + ")")
+		return Val{C: []string{n, "0", "0"}}, true
+	case "WriteByte":
+		set("(+ " + cur + " 1)")
+		return Val{C: []string{"0", "0"}}, true
+	case "WriteRune":
+		k := q.fresh(fr.prefix+"_runelen", "Int")
+		q.assume("true", fmt.Sprintf("(and (<= 1 %s) (<= %s 4))", k, k))
+		set("(+ " + cur + " " + k + ")")
+		return Val{C: []string{k, "0", "0"}}, true
+	case "String":
+		r := q.fresh(fr.prefix+"_built", "Str")
+		q.assume(fr.cur.reach, fmt.Sprintf("(= (slen %s) %s)", r, cur))
+		return Val{C: []string{r}}, true
+	case "Len":
+		return Val{C: []string{cur}}, true
+	case "Reset":
+		set("0")
+		return Val{}, true
+	case "Grow":
+		return Val{}, true
+	}
+	return Val{}, false
+}
+
+
+// throughSliceElement: the address is (a field of) an element of a slice; such cells are never fields of the tracked
+// receiver object, whose type has no array fields (no safe Go expression slices a struct's scalar fields)
+func throughSliceElement(a ssa.Value) bool {
+	for i := 0; i < 8; i++ {
+		switch x := a.(type) {
+		case *ssa.IndexAddr:
+			if _, ok := underlying(x.X.Type()).(*types.Slice); ok {
+				return true
+			}
+			a = x.X
+		case *ssa.FieldAddr:
+			a = x.X
+		default:
+			return false
+		}
+	}
+	return false
 }
